@@ -1290,7 +1290,7 @@ Section SessionProofs.
   Proof.
     induction fuel as [|f IH]; intros s r obs s' r' ok Hi Hr H; cbn [run_conn] in H.
     - inversion H; subst. auto.
-    - destruct (s_closed s); [inversion H; subst; auto|].
+    - destruct (s_closed s || r_dead r); [inversion H; subst; auto|].
       assert (Hgo : forall r1, reader_bytes_ok r1 ->
                 (let ty := match r_avail r1 with b :: _ => b | [] => -1 end in
                  let '(v, r2, e) := process_message o_corr_f o_scale o_inflate o_pw c s r1 in
@@ -1511,7 +1511,7 @@ Section FuelProofs.
     snd (run_conn o_corr_f o_scale o_inflate o_pw c fuel s r) = true.
   Proof.
     induction fuel as [|f IH]; intros s r Hf; [lia|]. cbn [run_conn].
-    destruct (s_closed s) eqn:Ecl; [reflexivity|].
+    destruct (s_closed s || r_dead r) eqn:Ecl; [reflexivity|].
     assert (Hgo : forall r1, (mu r1 <= mu r)%nat ->
               snd (let ty := match r_avail r1 with b :: _ => b | [] => -1 end in
                    let '(v, r2, e) := process_message o_corr_f o_scale o_inflate o_pw c s r1 in
@@ -1526,7 +1526,7 @@ Section FuelProofs.
       destruct v as [s1|]; [|reflexivity].
       destruct (run_conn o_corr_f o_scale o_inflate o_pw c f s1 r2) as [[[l v'] r3] ok0] eqn:Erc. cbn.
       destruct P2 as [Hcl|Hlt].
-      - destruct f; [lia|]. cbn [run_conn] in Erc. rewrite Hcl in Erc. inversion Erc; reflexivity.
+      - destruct f; [lia|]. cbn [run_conn] in Erc. rewrite Hcl in Erc. cbn [orb] in Erc. inversion Erc; reflexivity.
       - pose proof (IH s1 r2 ltac:(lia)) as Hi. rewrite Erc in Hi. exact Hi. }
     destruct (r_avail r) eqn:Eav.
     - destruct (r_eof r || r_reset r).
